@@ -22,8 +22,9 @@ use runner::{child_minimise, child_worker, replay_check, run_check, Tier};
 #[global_allocator]
 static GLOBAL: alloc::CountingAlloc = alloc::CountingAlloc;
 
-/// Checks whose runs may abort the process run their workers as child processes.
-const ISOLATED: [&str; 1] = ["C17"];
+/// Checks whose workers are child processes, so that a run that aborts the process (refused or failed
+/// allocation, stack overflow) or hangs is reported as a violation with a replay file: all of them.
+const ISOLATED: [&str; 17] = ["C01", "C02", "C03", "C04", "C05", "C06", "C07", "C08", "C09", "C10", "C11", "C12", "C13", "C14", "C17", "C19", "C20"];
 
 macro_rules! dispatch {
     ($id:expr, $f:ident, $($arg:expr),*) => {
